@@ -2677,18 +2677,25 @@ func (a *Association) getOrCreateStream(
 	return s
 }
 
+// ackedStream identifies whose buffered amount newly acknowledged bytes belong to: the stream
+// object that queued them, or (for chunks without one) whatever is registered under the identifier.
+type ackedStream struct {
+	id     uint16
+	stream *Stream
+}
+
 // The caller should hold the lock.
 //
 //nolint:gocognit,cyclop
 func (a *Association) processSelectiveAck(selectiveAckChunk *chunkSelectiveAck) (
-	bytesAckedPerStream map[uint16]int,
+	bytesAckedPerStream map[ackedStream]int,
 	htna uint32,
 	newestDeliveredSendTime time.Time,
 	newestDeliveredOrigTSN uint32,
 	deliveredFound bool,
 	err error,
 ) {
-	bytesAckedPerStream = map[uint16]int{}
+	bytesAckedPerStream = map[ackedStream]int{}
 	now := time.Now() // capture the time for this SACK
 
 	// Validate that full range exists in the inflight queue to prevent partial pops
@@ -2753,11 +2760,7 @@ func (a *Association) processSelectiveAck(selectiveAckChunk *chunkSelectiveAck) 
 			nBytesAcked := len(chunkPayload.userData)
 
 			// Sum the number of bytes acknowledged per stream
-			if amount, ok := bytesAckedPerStream[chunkPayload.streamIdentifier]; ok {
-				bytesAckedPerStream[chunkPayload.streamIdentifier] = amount + nBytesAcked
-			} else {
-				bytesAckedPerStream[chunkPayload.streamIdentifier] = nBytesAcked
-			}
+			bytesAckedPerStream[ackedStream{chunkPayload.streamIdentifier, chunkPayload.stream}] += nBytesAcked
 
 			// RFC 4960 sec 6.3.1.  RTO Calculation
 			//   C4)  When data is in flight and when allowed by rule C5 below, a new
@@ -2819,11 +2822,7 @@ func (a *Association) processSelectiveAck(selectiveAckChunk *chunkSelectiveAck) 
 				nBytesAcked := a.inflightQueue.markAsAcked(tsn)
 
 				// Sum the number of bytes acknowledged per stream
-				if amount, ok := bytesAckedPerStream[chunkPayload.streamIdentifier]; ok {
-					bytesAckedPerStream[chunkPayload.streamIdentifier] = amount + nBytesAcked
-				} else {
-					bytesAckedPerStream[chunkPayload.streamIdentifier] = nBytesAcked
-				}
+				bytesAckedPerStream[ackedStream{chunkPayload.streamIdentifier, chunkPayload.stream}] += nBytesAcked
 
 				a.log.Tracef("[%s] tsn=%d has been sacked", a.name, chunkPayload.tsn)
 
@@ -3048,8 +3047,14 @@ func (a *Association) processAcknowledgement(
 		a.onCumulativeTSNAckPointAdvanced(totalBytesAcked)
 	}
 
-	for si, nBytesAcked := range bytesAckedPerStream {
-		if s, ok := a.streams[si]; ok {
+	for key, nBytesAcked := range bytesAckedPerStream {
+		// Release the bytes to the stream object that wrote them. The identifier may
+		// have been unregistered (inbound reset) or re-opened as a new stream since.
+		s := key.stream
+		if s == nil {
+			s = a.streams[key.id]
+		}
+		if s != nil {
 			a.lock.Unlock()
 			s.onBufferReleased(nBytesAcked)
 			a.lock.Lock()
